@@ -182,6 +182,9 @@ func GenConfig(t *rapid.T, tier string, o GenOpts) Config {
 	if c.Val == VNil {
 		c.Format, c.Marshaler = ref.FormatBinary, "json"
 	}
+	if c.Val == VFloat {
+		c.Marshaler = "json" // the harness' custom codecs encode "the zero value" specially and would not keep the two zeros apart
+	}
 	if o.NoCustomV1 && c.Format == ref.FormatV1 {
 		c.Marshaler = "json"
 	}
